@@ -260,8 +260,13 @@ def run_coq_cases(prop, cases, timeout=1200, header=CASE_HEADER):
     os.makedirs(GEN, exist_ok=True)
     if not cases:
         return {}, []
-    nshard = min(8, max(1, len(cases)))
-    shards = [cases[i::nshard] for i in range(nshard)]
+    # items of one case (same id prefix before the first '.') share definitions: keep them in one shard
+    groups = {}
+    for item in cases:
+        groups.setdefault(str(item[0]).split(".")[0], []).append(item)
+    glist = list(groups.values())
+    nshard = min(8, max(1, len(glist)))
+    shards = [[it for g in glist[i::nshard] for it in g] for i in range(nshard)]
     procs = []
     tag = "%s_%d" % (prop, os.getpid())
     for si, sh in enumerate(shards):
